@@ -15,7 +15,7 @@ RELATED = {  # checks worth running besides the seed's own property
     'C09': [], 'C10': [], 'C11': ['C12'], 'C12': ['C11'], 'C13': ['C15'], 'C14': [], 'C15': [], 'C16': ['C03'],
     'C17': [], 'C18': [], 'C19': [], 'C20': [],
 }
-RELATED.update({'C01': ['C06'], 'C09': ['C10']})
+RELATED.update({'C01': ['C06'], 'C09': ['C10'], 'C14': ['C08'], 'C04': ['C17', 'C07'], 'C12': ['C11'], 'C05': ['C03'], 'C03': ['C05']})
 
 
 def run_checks(wt, out, ids):
